@@ -305,10 +305,14 @@ func (d *deflate) decompress(compressed []byte) ([]byte, error) {
 	if d.reader == nil {
 		d.reader = flate.NewReader(nil)
 	}
-	d.reader.(flate.Resetter).Reset(&d.buf, nil)
+	if err := d.reader.(flate.Resetter).Reset(&d.buf, nil); err != nil {
+		return nil, fmt.Errorf("resetting deflate decompressor: %w", err)
+	}
 
 	d.out.Reset()
-	d.out.ReadFrom(d.reader)
+	if _, err := d.out.ReadFrom(d.reader); err != nil {
+		return nil, fmt.Errorf("reading from deflate decompressor: %w", err)
+	}
 
 	return d.out.Bytes(), nil
 }
